@@ -148,11 +148,8 @@ impl Adapter for SqliteAdapter {
             .into_iter()
             .filter_map(|key| {
                 let key: String = key.unwrap();
-                if key.ends_with(ext) {
-                    Some(key)
-                } else {
-                    None
-                }
+                // Like the other adapters: the matching keys with the extension removed
+                key.strip_suffix(ext).map(|k| k.to_string())
             })
             .collect())
     }
